@@ -178,6 +178,10 @@ func (p *c14Plugin) HookWrapper() server.HookWrapper {
 				switch p.v("OnMsgArrived") {
 				case "error":
 					return codes.NewError(codes.NotAuthorized)
+				case "error-plain":
+					return errors.New("refused")
+				case "error-0x80":
+					return codes.NewError(codes.UnspecifiedError)
 				case "drop":
 					req.Drop()
 					return nil
@@ -486,7 +490,7 @@ func c14Verdicts() []c14Verdict {
 		for _, r := range []string{"accept", "reject-all", "reject-one"} {
 			out = append(out, c14Verdict{"OnUnsubscribe", r, v})
 		}
-		for _, r := range []string{"accept", "error", "drop", "rewrite"} {
+		for _, r := range []string{"accept", "error", "error-plain", "error-0x80", "drop", "rewrite"} {
 			out = append(out, c14Verdict{"OnMsgArrived", r, v})
 		}
 		for _, r := range []string{"keep", "edit", "drop"} {
@@ -762,7 +766,7 @@ func c14RunVerdict(c *explore.Ctx, order []string, decider string, vd c14Verdict
 			switch vd.verdict {
 			case "accept":
 				wantGot, wantRet = "m/t=new", "m/t=new"
-			case "error", "drop":
+			case "error", "error-plain", "error-0x80", "drop":
 				wantGot, wantRet = "", "m/t=old"
 			case "rewrite":
 				wantGot, wantRet = "m/rewritten=REWRITTEN", "m/rewritten=REWRITTEN;m/t=old"
@@ -779,13 +783,57 @@ func c14RunVerdict(c *explore.Ctx, order []string, decider string, vd c14Verdict
 			for _, r := range x.Recv() {
 				if r.P != nil && r.P.Type == refmqtt.PUBACK && r.P.PacketID == 3 {
 					ok = true
-					if vd.verdict == "error" && vd.version == refmqtt.V5 && r.P.Code != 0x87 {
-						c.Violate("publish", "puback-code-does-not-report-error", cas(), "0x87", fmt.Sprintf("0x%02x", r.P.Code))
+					wantCode := map[string]byte{"error": 0x87, "error-plain": 0x80, "error-0x80": 0x80}[vd.verdict]
+					if wantCode != 0 && vd.version == refmqtt.V5 && r.P.Code != wantCode {
+						c.Violate("publish", "puback-code-does-not-report-error", cas(), fmt.Sprintf("0x%02x", wantCode), fmt.Sprintf("0x%02x", r.P.Code))
 					}
 				}
 			}
 			if !ok {
 				c.Violate("publish", "no-puback-"+vd.verdict, cas(), "PUBACK(3)", "none")
+			}
+			// the same verdict on a QoS 2 publish, and then the identifier is used again for a
+			// publish the hooks accept: it is a new message (hook fires, subscribers get it)
+			x.Send(&refmqtt.Packet{Type: refmqtt.PUBLISH, Topic: "m/q", QoS: 2, PacketID: 9, Payload: []byte("first")})
+			vsched.Settle()
+			var rec *refmqtt.Packet
+			for _, r := range x.Recv() {
+				if r.P != nil && r.P.Type == refmqtt.PUBREC && r.P.PacketID == 9 {
+					rec = r.P
+				}
+			}
+			if rec == nil {
+				c.Violate("publish", "no-pubrec-"+vd.verdict, cas(), "PUBREC(9)", "none")
+				return
+			}
+			if !(vd.version == refmqtt.V5 && rec.Code >= 0x80) {
+				x.Send(&refmqtt.Packet{Type: refmqtt.PUBREL, PacketID: 9})
+				vsched.Settle()
+				x.Recv()
+			}
+			got2 := strings.Join(watchGot(), ";")
+			want2 := map[string]string{"accept": "m/q=first", "rewrite": "m/rewritten=REWRITTEN"}[vd.verdict]
+			if got2 != want2 {
+				c.Violate("publish", "qos2-delivery-differs-from-verdict-"+vd.verdict, cas(), want2, got2)
+			}
+			c14.verdict = nil
+			fired := 0
+			for _, l := range c14.log {
+				if l == "base:OnMsgArrived" {
+					fired++
+				}
+			}
+			x.Send(&refmqtt.Packet{Type: refmqtt.PUBLISH, Topic: "m/q", QoS: 2, PacketID: 9, Payload: []byte("second")})
+			vsched.Settle()
+			fired2 := 0
+			for _, l := range c14.log {
+				if l == "base:OnMsgArrived" {
+					fired2++
+				}
+			}
+			c14.verdict = saved
+			if g := strings.Join(watchGot(), ";"); g != "m/q=second" || fired2 != fired+1 {
+				c.Violate("publish", "identifier-reused-after-a-"+vd.verdict+"-qos2-publish-not-treated-as-a-new-message", cas(), "m/q=second delivered, OnMsgArrived fired once more", fmt.Sprintf("%q, fired %d more time(s)", g, fired2-fired))
 			}
 		case "OnWillPublish":
 			if ack := x.Connect(copts); ack == nil || ack.Code != 0 {
